@@ -739,3 +739,63 @@ theorem sim_noteOther {cfg : Config} {d : Dev} {b : Book} (hinv : Inv cfg d b) (
       rw [e2] at hk
       have := (book1_ok hk).2.1
       omega
+
+/-! ### one step -/
+
+theorem sim_key {cfg : Config} (hacc : Accepted cfg = true) {d : Dev} {b : Book} (hinv : Inv cfg d b) (i : Nat)
+    (sub : Sub) (code : Code) (val : Int) (hv2 : val ≠ 2) :
+    StepGoal cfg i b (.key sub code val) (d.handleKey sub code val) := by
+  rw [handleKey_eq hinv.dinv]
+  by_cases hsw : swOf cfg b code val
+  · rw [if_pos ((swOf_iff hinv code val).mp hsw)]
+    exact sim_swallowed hinv i sub code val hv2 hsw
+  · rw [if_neg (fun h => hsw ((swOf_iff hinv code val).mpr h))]
+    cases ha : alookup code cfg.actions with
+    | some a =>
+      simp only
+      by_cases h1 : val = 1
+      · subst h1; rw [if_pos rfl]; exact sim_actPress hinv i sub code a ha hsw
+      · rw [if_neg h1]; exact sim_actOther hinv i sub code val a ha h1 hv2
+    | none =>
+      simp only
+      by_cases h1 : val = 1
+      · subst h1; rw [if_pos rfl]; exact sim_notePress hacc hinv i sub code ha hsw
+      · rw [if_neg h1]; exact sim_noteOther hinv i sub code val ha h1 hv2
+
+theorem sim_same {cfg : Config} {d d' : Dev} {b : Book} {ev : Ev} (hinv : Inv cfg d b) (i : Nat)
+    (he : expectStep cfg b false ev = (quietExpect b, b))
+    (hf : d'.cfg = d.cfg ∧ d'.octave = d.octave ∧ d'.semitone = d.semitone ∧ d'.channel = d.channel ∧
+      d'.velocity = d.velocity ∧ d'.mapping = d.mapping ∧ d'.noteTr = d.noteTr ∧ d'.anaTr = d.anaTr ∧
+      d'.counter = d.counter ∧ d'.dead = d.dead)
+    (hk : d'.keyTr = d.keyTr) (ha : d'.actTr = d.actTr) :
+    StepGoal cfg i b ev (d', []) := by
+  apply sim_silent hinv i he rfl (by rw [hk]; exact hinv.down) id hf
+  · intro h; rw [ha]; exact (hinv.okp h).acts
+  · intro h k hkm; rw [hk]; exact ((hinv.okp h).keys k hkm).1
+
+theorem step_sim {cfg : Config} (hacc : Accepted cfg = true) {d : Dev} {b : Book} (hinv : Inv cfg d b) (i : Nat)
+    (e : Ev) (hk : ∀ s n c v, e ≠ Ev.abs s n c v) : StepGoal cfg i b e (d.step e) := by
+  unfold Dev.step
+  rw [hinv.dinv.dead]
+  simp only [Bool.false_eq_true, if_false]
+  cases e with
+  | syn => exact sim_same hinv i rfl ⟨rfl, rfl, rfl, rfl, rfl, rfl, rfl, rfl, rfl, rfl⟩ rfl rfl
+  | abs s n c v => exact absurd rfl (hk s n c v)
+  | midiIn x y z =>
+    simp only
+    apply sim_same hinv i rfl
+    · unfold Dev.midiIn; simp only []; repeat' split
+      all_goals exact ⟨rfl, rfl, rfl, rfl, rfl, rfl, rfl, rfl, rfl, rfl⟩
+    · unfold Dev.midiIn; simp only []; repeat' split
+      all_goals rfl
+    · unfold Dev.midiIn; simp only []; repeat' split
+      all_goals rfl
+  | key sub code val =>
+    simp only
+    by_cases h2 : val = 2
+    · rw [if_pos h2]
+      subst h2
+      exact sim_same hinv i (by simp [expectStep, quietExpect]) ⟨rfl, rfl, rfl, rfl, rfl, rfl, rfl, rfl, rfl, rfl⟩ rfl rfl
+    · rw [if_neg h2]; exact sim_key hacc hinv i sub code val h2
+
+end Hidi.EngineSim
